@@ -265,5 +265,28 @@ func scenarioPrograms() []*Program {
 			set("c1", dot("o", "get")), &ExprStmt{&Call{dot("o", "set"), []Expr{num(5)}}}, &Assign{Target: dot("A", "p"), Rhs: num(8)},
 			set("c", &Builtin{"new", []Expr{v("A")}}),
 			rec("m", call("c1"), &Call{dot("o2", "get"), nil}, &Call{dot("c", "get"), nil}, dot("A", "p"))),
+		// a method that declares a template of its own, instantiates it and runs its
+		// constructor and a method: the outer method still sees ITS object as this
+		P(set("A", &MapLit{Keys: []*Lit{strLit("count"), strLit("make")}, Vals: []Expr{num(7),
+			fn(1, []string{"a"},
+				set("B", &MapLit{Keys: []*Lit{strLit("v"), strLit("init"), strLit("get")}, Vals: []Expr{num(0),
+					fn(2, []string{"x"}, &Assign{Target: dot("this", "v"), Rhs: v("x")}),
+					fn(3, nil, &Return{dot("this", "v")})}}),
+				set("o", &Builtin{"new", []Expr{v("B"), v("a")}}),
+				set("r", &Call{dot("o", "get"), nil}),
+				rec("in", dot("this", "count"), dot("o", "v"), v("r")),
+				&Assign{Target: dot("this", "count"), Rhs: plus(dot("this", "count"), 1)},
+				&Return{dot("this", "count")})}}),
+			set("c", &Builtin{"new", []Expr{v("A")}}),
+			rec("out", &Call{dot("c", "make"), []Expr{num(5)}}, dot("c", "count"), &Call{dot("c", "make"), []Expr{num(6)}}, dot("c", "count"), dot("A", "count"))),
+		// the same with the inner object created in the outer constructor
+		P(set("B", &MapLit{Keys: []*Lit{strLit("v"), strLit("init")}, Vals: []Expr{num(0),
+			fn(2, []string{"x"}, &Assign{Target: dot("this", "v"), Rhs: v("x")})}}),
+			set("A", &MapLit{Keys: []*Lit{strLit("part"), strLit("n"), strLit("init")}, Vals: []Expr{&Lit{V: nil}, num(1),
+				fn(1, []string{"a"},
+					&Assign{Target: dot("this", "part"), Rhs: &Builtin{"new", []Expr{v("B"), v("a")}}},
+					&Assign{Target: dot("this", "n"), Rhs: plus(v("a"), 1)})}}),
+			set("c", &Builtin{"new", []Expr{v("A"), num(4)}}),
+			rec("ctor", dot("c", "n"), &Path{Root: "c", Steps: []Step{{Dot: true, Idx: strLit("part")}, {Dot: true, Idx: strLit("v")}}}, dot("A", "n"), dot("B", "v"))),
 	}
 }
